@@ -103,6 +103,16 @@ let dispatch name =
   | "knot_spans" ->
     let tol = rq () in let b = rbasis () in let g = rbool () in
     pqlist (Exec.q_knot_spans tol b g)
+  | "obj_reverse" ->
+    let o = robj () in let d = rnat () in pobj (Exec.q_obj_reverse o d)
+  | "obj_swap" ->
+    let o = robj () in let d1 = rnat () in let d2 = rnat () in pobj (Exec.q_obj_swap o d1 d2)
+  | "obj_reparam_dir" ->
+    let o = robj () in let d = rnat () in let s = rq () in let e = rq () in
+    pres pobj (Exec.q_obj_reparam_dir o d s e)
+  | "obj_reparam_all" ->
+    let o = robj () in let rs = rlist (fun () -> let s = rq () in let e = rq () in (s, e)) in
+    pres pobj (Exec.q_obj_reparam_all o rs)
   | _ -> out ("UNKNOWN " ^ name)
 
 let () =
